@@ -17,6 +17,14 @@ CHECKS = {
                 technique="Lean 4 theorems over Model/Batch.lean + exhaustive differential check of the real BatchProcessor against the model",
                 ref="§8 C18"),
 }
+CHECKS["C02"] = dict(
+    text="Theorems for every problem table, layout, gamma and value vector (no WF needed): sweep = map backup over the states in natural "
+         "order whatever the padding rows compute; backup is an attained upper bound of the textbook action values; the extracted action is "
+         "the first maximiser and lies in the action space; sweep is monotone, shifts by gamma*c, and is a gamma-contraction in sup norm. "
+         "Tie: real ValueIteration sweep/policy on generated tabular problems with injected (non-iterate) dyadic value vectors, gamma in "
+         "{0,1/2,3/4,1}, batch layouts, 1-8 emulated devices: bit-exact in the dyadic regime, rounding envelope otherwise.",
+    technique="Lean 4 theorems over Model/Backup.lean + bit-exact differential check of the real sweep against the model run at Rat",
+    ref="§8 C02")
 PENDING = {}
 
 
